@@ -13,7 +13,7 @@ CHECKS = {
  "C02": dict(
    technique="property-based testing with taint markers: generated html/xml programs of the safe-marking-free fragment over tainted context data and literals, validity oracle on the output (no raw < > \" '), plus a metamorphic round trip (unescape(.html rendering) == .txt rendering) on a fragment where captured values are not transformed",
    level="exploration",
-   text="A flow generator sends tainted strings, tainted byte strings (valid and invalid UTF-8) and captured (safe) values through every string/list filter and operator in every argument position, through the contrib filters and globals (wordwrap, truncate, pluralize, joiner, cycler ...) and the Python-style string methods, through macros, call blocks, set/filter blocks, loops, includes, imports and inherited blocks of *.html/*.xml templates; free-mode programs rewritten into the fragment are mixed in. The output must contain none of < > \" '. For programs that only print/pass/store/loop over/join/re-capture captured values, unescaping the html rendering must give exactly the txt rendering (escaped exactly once). Both escaper implementations (speedups off/on). Main templates carry 14 spellings of HTML/XML names (htm, .j2/.jinja suffixes, directories with dots, extension-only names).",
+   text="A flow generator sends tainted strings, tainted byte strings (valid and invalid UTF-8) and captured (safe) values through every string/list filter and operator in every argument position, through the contrib filters and globals (wordwrap, truncate, pluralize, joiner, cycler ...) and the Python-style string methods, through macros, call blocks, set/filter blocks, loops, includes, imports and inherited blocks of *.html/*.xml templates; free-mode programs rewritten into the fragment are mixed in. The output must contain none of < > \" '. For programs that only print/pass/store/loop over/join/re-capture captured values, unescaping the html rendering must give exactly the txt rendering (escaped exactly once). Both escaper implementations (speedups off/on). Main templates carry 14 spellings of HTML/XML names (htm, .j2/.jinja suffixes, directories with dots, extension-only names). Captures are also passed through filters that are the identity for the given arguments (indent(0), replace of an absent needle, default, string ...).",
    note="Raw & is not asserted (transforming an already escaped capture legitimately yields &LT; or cut-off entities). Mixed-extension includes are outside the domain.",
    design="3/C02"),
  "C03": dict(
@@ -31,7 +31,7 @@ CHECKS = {
  "C05": dict(
    technique="property-based testing with path enumeration: generated skeletons of nested scoped constructs with break/continue at every accepted position and recursive loops that call themselves in five forms (bare, assigned, filtered, with lazy arguments of unknown length), every control-flow path driven through context booleans and list lengths, state-balance invariant observed through the verif_hooks monitor plus sentinel/scope/escape probes in the output",
    level="exploration",
-   text="For each generated program all assignments of its condition booleans and loop lengths (up to 160, else sampled) are rendered in .txt and .html; per path the feature-guarded balance monitor (frame depth, capture depth, auto-escape stack and operand stack equal at entry and normal exit of every instruction-stream evaluation; no foreign frame/capture popped) must stay silent, markers written after every top-level construct must reach the output in order, the escape mode and outer variables must be as before, inner assignments of isolating constructs must be gone, and so must whatever an included template assigned while it ran inside a construct with a scope of its own (also a block that assigns nothing itself). An enumerated part includes templates that exist and fail while one of their own constructs is open (7 failing statements x 10 open constructs) through plain / ignore missing / list-of-choices includes in 5 wrappers: the render fails, or the text, escape mode and scope after the include are intact.",
+   text="For each generated program all assignments of its condition booleans and loop lengths (up to 160, else sampled) are rendered in .txt and .html; per path the feature-guarded balance monitor (frame depth, capture depth, auto-escape stack and operand stack equal at entry and normal exit of every instruction-stream evaluation; no foreign frame/capture popped) must stay silent, markers written after every top-level construct must reach the output in order, the escape mode and outer variables must be as before, inner assignments of isolating constructs must be gone, and so must whatever an included template assigned while it ran inside a construct with a scope of its own (also a block that assigns nothing itself). An enumerated part includes templates that exist and fail while one of their own constructs is open (7 failing statements x 10 open constructs) through plain / ignore missing / list-of-choices includes in 5 wrappers: the render fails, or the text, escape mode and scope after the include are intact. A third enumerated part writes break/continue into the else branch of a loop (7 wrappers x 4 controls x with/without an outer loop): rejected at load, or rendered without panic with everything after the construct intact.",
    note="Paths are complete only for programs with at most 160 assignments. The reference-interpreter comparison of whole outputs is part of C03.",
    design="3/C05"),
  "C06": dict(
@@ -61,7 +61,7 @@ CHECKS = {
  "C10": dict(
    technique="model-based property testing (whitespace rules as worded vs engine, enumerated for short sequences and generated beyond) plus metamorphic testing (same program under 12 fixed and random delimiter configurations, line statements vs whole-line block tags) plus differential testing of styled programs against the reference interpreter",
    level="exploration",
-   text="(a) Sequences of text and variable/block/comment/raw tags with every marker on either side are rendered under the 8 whitespace settings and compared with an independent model of the documented rules, with default delimiters and re-spelled under three custom delimiter sets (one prefix-sharing, one whose block start can overlap itself); all sequences of length <= 2 and all text-tag-text / tag-text-tag triples over a 37-symbol alphabet are enumerated. (b) Generated single-file programs whose text consists of partial and look-alike delimiters must render identically (or fail alike) with default delimiters and with each of 12 delimiter sets incl. prefix-sharing and nested-prefix ones. (c) Default-looking delimiters are verbatim text under a custom syntax; line statements/comments behave like whole-line tags. (d) Well-typed programs (C03 generator) with whitespace/look-alike texts are printed in a random style - fixed or random delimiter configuration, -/+ markers on any tag, free spacing in tags, whitespace that a marker removes, comments, texts as raw blocks, block tags as line statements, 8 settings - the per-text-run form of the whitespace model says which characters survive, and the reference interpreter run on the program with exactly those texts must agree with the engine. (b) and (d) draw random unambiguous delimiter configurations (prefix-sharing, self-overlapping, single-character). Line statements are followed by nothing, an empty line or a blank line and rendered under all four trim_blocks x lstrip_blocks settings against the whole-line-tag form.",
+   text="(a) Sequences of text and variable/block/comment/raw tags with every marker on either side are rendered under the 8 whitespace settings and compared with an independent model of the documented rules, with default delimiters and re-spelled under three custom delimiter sets (one prefix-sharing, one whose block start can overlap itself); all sequences of length <= 2 and all text-tag-text / tag-text-tag triples over a 37-symbol alphabet are enumerated. (b) Generated single-file programs whose text consists of partial and look-alike delimiters must render identically (or fail alike) with default delimiters and with each of 12 delimiter sets incl. prefix-sharing and nested-prefix ones. (c) Default-looking delimiters are verbatim text under a custom syntax; line statements/comments behave like whole-line tags. (d) Well-typed programs (C03 generator) with whitespace/look-alike texts are printed in a random style - fixed or random delimiter configuration, -/+ markers on any tag, free spacing in tags, whitespace that a marker removes, comments, texts as raw blocks, block tags as line statements, 8 settings - the per-text-run form of the whitespace model says which characters survive, and the reference interpreter run on the program with exactly those texts must agree with the engine. (b) and (d) draw random unambiguous delimiter configurations (prefix-sharing, self-overlapping, single-character). Line statements are followed by nothing, an empty line or a blank line and rendered under all four trim_blocks x lstrip_blocks settings against the whole-line-tag form. Tag-free text with nine kinds of endings goes through render_str, render_named_str, template_from_str and a stored template, with keep_trailing_newline on and off.",
    note="A lone CR next to a tag is outside the model (undocumented whether it is a line boundary). (b) compares the engine with itself under two printings of the same AST; (d) is judged by model/ws.rs + refint.rs. Not generated (meaning undocumented): end delimiters that begin with a marker character or whitespace, text completing a delimiter across a tag boundary, trailing line comments.",
    design="3/C10"),
  "C11": dict(
@@ -103,7 +103,7 @@ CHECKS = {
  "C17": dict(
    technique="property-based testing: complete enumeration of template names over the quantifier's segment alphabet plus proptest-generated noise names, validity oracle on the returned content against a scratch directory tree with canary files; safe_join additionally checked as a pure function",
    level="exploration",
-   text="Every join of up to 5 segments of the 14-entry alphabet (579 194 names) and generated noise names are loaded through get_template, include, include-list, extends and import from a real directory tree whose files state their own relative path and whose surroundings hold OUTSIDE canaries; an Ok result must be the INSIDE file named by the non-empty, non-dot segments. safe_join (via the verif_hooks re-export) must return None or a path whose components are exactly those segments, for the scratch base and nine other spellings of a base (empty, relative, trailing separator, root). Names built from the scratch tree's own absolute path (the base, its parent, siblings whose name extends the base's name) are enumerated and generated as well.",
+   text="Every join of up to 5 segments of the 14-entry alphabet (579 194 names) and generated noise names are loaded through get_template, include, include-list, extends and import from a real directory tree whose files state their own relative path and whose surroundings hold OUTSIDE canaries; an Ok result must be the INSIDE file named by the non-empty, non-dot segments. safe_join (via the verif_hooks re-export) must return None or a path whose components are exactly those segments, for the scratch base and nine other spellings of a base (empty, relative, trailing separator, root). Names built from the scratch tree's own absolute path (the base, its parent, siblings whose name extends the base's name) are enumerated and generated as well. Files named like the base directory plus a suffix (.j2, .html, ~ ...) sit next to it.",
    note="Assumes Linux path semantics and no symlinks inside the base. Exhaustive only over the stated alphabet and length.",
    design="3/C17"),
  "C18": dict(
